@@ -286,6 +286,15 @@ def _apply_sequence(f, fi, fr, inverse, roundtrip):
             c = t.get("callee") or ""
             if c.endswith("Context::apply") or c.endswith("Plain::apply") or (f.callee(t) or "").endswith("::apply"):
                 d = f.arg_terms(bb)[2]
+                if not (d[0] == "agg" and isinstance(d[1], tuple)):
+                    # a direction chosen earlier and stored (`let (direction, opposite) = if options.inverse {..}`)
+                    import guards
+                    import mir as _m
+                    assume = {}
+                    for idx, val in ((fi, inverse), (fr, roundtrip)):
+                        for base in (("proj", ("arg", 1), "deref"), ("arg", 1)):
+                            assume[("proj", base, ("f", idx))] = val
+                    d = _m.strip_refs(guards.resolve(f, d, assume))
                 seq.append(d[1][2] if d[0] == "agg" and isinstance(d[1], tuple) else "?")
         if t["k"] == "return":
             return seq
